@@ -15,7 +15,7 @@ RULE = ('the full product version {2,3} x key {none, discard, bare blob, blob wi
         'fake Tor; the service object is inspected when the reply has arrived, then remove() is called (for some cases twice, Tor refusing the first DEL_ONION). '
         'non-trivial = every cell (each exercises a different command); distinct = distinct cells')
 TRUSTED = ["the ADD_ONION argument grammar as transcribed in lean/TxV/Spec/AddOnion.lean", "the fake Tor's reply lines (ServiceID=, PrivateKey=, ClientAuth=)",
-           "_validate_ports' formatting of the port forms is re-stated by the harness (expected normalisation); available_tcp_port on MemoryReactor yields port 0"]
+           "_validate_ports' formatting of the port forms is re-stated by the harness (expected normalisation); available_tcp_port runs against a reactor double that numbers the free ports (40001, 40002, …) and, for half the cases, completes stopListening() on a later turn"]
 ASSUMPTIONS = ["words of the request contain no space (Wordy): key blobs, targets, client names and tokens"]
 EXHAUSTIVE = {'quick': True, 'thorough': True}
 
@@ -28,12 +28,14 @@ KEYS = {
 AUTHS = {'noauth': None, 'basic0': [], 'basic1': ['alice'], 'basic2': [('alice', 'tok123'), 'bob']}
 PORTSETS = {
     'int': [80], 'pair': [(80, 8080)], 'unix': [(80, 'unix:/tmp/sock')], 'addr': [(443, '127.0.0.1:9999')],
+    'ints': [80, 443], 'int-pair-int': [80, (8080, 9000), 22],
     'str': ['80 127.0.0.1:1234'], 'samevirt': [(80, 8080), (80, 8081), '80 unix:/tmp/third'], 'strunix': ['443 unix:/x/y'], 'three': [(80, 8080), '443 127.0.0.1:4443', (22, 'unix:/s')],
 }
 
 
 def norm_ports(ports):
     out = []
+    n_free = 0
     for p in ports:
         if isinstance(p, tuple):
             r, l = p
@@ -42,8 +44,43 @@ def norm_ports(ports):
             a, b = p.split(' ', 1)
             out.append((a, b))
         else:
-            out.append((str(int(p)), '127.0.0.1:0'))
+            # a bare port gets a free local port: the harness reactor hands out 40001, 40002, … in the order they are asked for
+            n_free += 1
+            out.append((str(int(p)), '127.0.0.1:%d' % (40000 + n_free)))
     return out
+
+
+def port_reactor(slow):
+    """a MemoryReactorClock whose listening ports on port 0 are numbered 40001, 40002, …; with `slow`, stopListening() completes on a
+    later reactor turn (as a real port's does)"""
+    from twisted.internet.testing import MemoryReactorClock
+    from twisted.internet.address import IPv4Address
+    from twisted.internet import defer
+
+    class R(MemoryReactorClock):
+        n_free = 0
+
+        def listenTCP(self, port, factory, backlog=50, interface=''):
+            if port != 0:
+                return MemoryReactorClock.listenTCP(self, port, factory, backlog, interface)
+            self.n_free += 1
+            num, reactor = 40000 + self.n_free, self
+
+            class P:
+                def getHost(self_):
+                    return IPv4Address('TCP', interface or '127.0.0.1', num)
+
+                def startListening(self_):
+                    pass
+
+                def stopListening(self_):
+                    if not slow:
+                        return None
+                    d = defer.Deferred()
+                    reactor.callLater(0, d.callback, None)
+                    return d
+            return P()
+    return R()
 
 
 def corpus():
@@ -52,11 +89,14 @@ def corpus():
 
 def gen_cases(rng, tier):
     for ver, key, det, sh, auth, ps in itertools.product([2, 3], sorted(KEYS), [False, True], [False, True], sorted(AUTHS), sorted(PORTSETS)):
-        if tier == 'quick' and ps not in ('pair', 'three', 'int', 'samevirt') and (det or sh):
+        if tier == 'quick' and ps not in ('pair', 'three', 'int', 'samevirt', 'ints', 'int-pair-int') and (det or sh):
             continue
-        yield {'version': ver, 'key': key, 'detach': det, 'single_hop': sh, 'auth': auth, 'ports': ps}
+        c = {'version': ver, 'key': key, 'detach': det, 'single_hop': sh, 'auth': auth, 'ports': ps}
+        if ps in ('int', 'ints', 'int-pair-int') and (det == sh):
+            c['slow_ports'] = True      # the free-port lookups finish on a later reactor turn
+        yield c
     # the same requests through the builder object applications hold: Tor.create_onion_service (no client authorisation there)
-    for ver, key, det, sh, ps in itertools.product([2, 3], sorted(KEYS), [False, True], [False, True], ['pair', 'unix', 'addr', 'str', 'three']):
+    for ver, key, det, sh, ps in itertools.product([2, 3], sorted(KEYS), [False, True], [False, True], ['pair', 'unix', 'addr', 'str', 'three', 'ints']):
         if det and sh:
             continue
         yield {'version': ver, 'key': key, 'detach': det, 'single_hop': sh, 'auth': 'noauth', 'ports': ps, 'entry': 'tor'}
@@ -75,7 +115,7 @@ def run_impl(c):
     from txtorcon.onion import EphemeralOnionService, EphemeralAuthenticatedOnionService, AuthBasic, DISCARD
     st = SimTor().connect()
     cfg = TorConfig(st.proto)
-    reactor = MemoryReactorClock()
+    reactor = port_reactor(c.get('slow_ports', False))
     key = KEYS[c['key']]
     if key == 'DISCARD':
         key = DISCARD
@@ -98,6 +138,8 @@ def run_impl(c):
                                                                version=c['version'], single_hop=c['single_hop'], auth=auth)
                 d2.addErrback(lambda f: None)
         d.addCallbacks(lambda r: out.update(result='ok'), lambda f: out.update(result='fail:' + f.type.__name__) and None)
+        for _ in range(8):
+            reactor.advance(0)      # (free-port lookups that finish on a later turn)
     except Exception as e:
         out['result'] = 'raised:' + type(e).__name__
     cmds = st.commands('ADD_ONION')
